@@ -65,7 +65,6 @@ opaque!{
   ExDiagnosticFilterNode = naga::diagnostic_filter::DiagnosticFilterNode;
   ExLocalVariable = naga::LocalVariable;
   ExEarlyDepthTest = naga::EarlyDepthTest;
-  ExBuiltIn = naga::BuiltIn;
   ExInterpolation = naga::Interpolation;
   ExSampling = naga::Sampling;
   ExStorageFormat = naga::StorageFormat;
@@ -87,6 +86,7 @@ transp!{
   ExImageDimension = naga::ImageDimension;
   ExImageClass = naga::ImageClass;
   ExBinding = naga::Binding;
+  ExBuiltIn = naga::BuiltIn;
   ExStructMember = naga::StructMember;
   ExFunctionArgument = naga::FunctionArgument;
   ExFunctionResult = naga::FunctionResult;
@@ -303,6 +303,10 @@ pub broadcast axiom fn axiom_layouter_index_req(l: naga::proc::Layouter, h: naga
 
 // TypeLayout::to_stride (naga 24 proc/layouter.rs): the size rounded up to the alignment - an uninterpreted function of the
 // layout, NOT the size (a struct of size 12 and alignment 16 has stride 16)
+// Alignment::round_up (naga 24 proc/layouter.rs): an uninterpreted function of (alignment, n) - NOT the identity (12 rounds up to 16 at alignment 16)
+pub uninterp spec fn align_round_up(a: naga::proc::Alignment, n: u32) -> u32;
+pub assume_specification[ naga::proc::Alignment::round_up ](a: &naga::proc::Alignment, n: u32) -> (r: u32)
+    ensures r == align_round_up(*a, n);
 pub uninterp spec fn layout_stride(l: naga::proc::TypeLayout) -> u32;
 pub assume_specification[ naga::proc::TypeLayout::to_stride ](l: &naga::proc::TypeLayout) -> (r: u32)
     ensures r == layout_stride(*l);
